@@ -54,6 +54,10 @@ func getTypeFromSchemaProps(schema *spec.SchemaProps) (typeName string, isArray 
 			typeName = fmt.Sprintf("%s.%s", typeName, format)
 		}
 		if typeName == ArrayType {
+			if schema.Items == nil || schema.Items.Schema == nil {
+				// no items, or tuple-typed items (an array of schemas): there is no single item type
+				return "", true
+			}
 			typeName, _ = getSchemaType(&schema.Items.Schema.SchemaProps)
 			return typeName, true
 		}
